@@ -4,7 +4,7 @@ import common, ceremony
 from ceremony import *
 
 PROP = "C05"
-COQ_TARGETS = ceremony.COQ_TARGETS
+COQ_TARGETS = ceremony.COQ_TARGETS + list(ceremony.WCOQ_TARGETS)
 HARNESS_BINS = ceremony.HARNESS_BINS
 replay = ceremony.replay
 
@@ -104,6 +104,56 @@ def typed_lists(run):
     return scs
 
 
+def client_lists(run):
+    """the WebAuthn entry points: allow / exclude lists are matched by id, whatever `transports` hint (or `type`) a descriptor
+    carries and whatever transports the authenticator reports - a listed credential held for the RP excludes the registration and
+    is the one an authentication uses"""
+    rng = run.rng
+    held = bytes([0x6D]) * 16
+    scs = []
+    hints = [None, [], ["usb"], ["internal"], ["hybrid", "internal"], ["nfc", "ble"], ["something-new"]]
+    for kind in ("option", "ref", "arc_mutex_ref"):
+        for tr_cfg in (None, ["usb"], ["internal", "hybrid"]):
+            content = [mk_passkey(rng, "example.com", cred_id=held, counter=1, keyidx=0, user_handle=b"\x01\x02\x03")]
+            cfg = {"counter": True}
+            if tr_cfg is not None: cfg["transports"] = tr_cfg
+            for h in hints:
+                r = reg_op(rng, exclude=[held]); r["req"]["exclude_tr"] = [h]
+                r2 = reg_op(rng, exclude=[bytes(16), held]); r2["req"]["exclude_tr"] = [h, h]
+                a = auth_op(rng, allow=[held]); a["req"]["allow_tr"] = [h]
+                scs.append(client_scenario(store_kind=kind, content=content, config=cfg, user={"script": [{"presence": True, "verification": True}] * 3}, ops=[r, a, r2]))
+    binary = common.harness_build("ceremony")
+    outs = ceremony.run_scenarios(binary, scs)
+    fails = []
+    for sc, out in zip(scs, outs):
+        if "ops" not in out:
+            fails.append((sc, out, "the client ceremony crashed the process")); continue
+        for op, obs in zip(sc["ops"], out["ops"]):
+            res = obs["result"]
+            if op["op"] == "register":
+                if "ok" in res or res["err"] != {"kind": "AuthenticatorError", "code": 0x19}:
+                    fails.append((sc, obs, "the exclude list names a credential held for the same RP (descriptor transports %s) but the registration answered %s "
+                                           "instead of credential-excluded" % (op["req"]["exclude_tr"], json.dumps(res)[:90])))
+                elif len(obs["store_after"]) != len(sc["store"]["content"]):
+                    fails.append((sc, obs, "an excluded registration changed the store"))
+            else:
+                if "ok" not in res or res["ok"]["raw_id"] != held.hex():
+                    fails.append((sc, obs, "an authentication whose allow list names the held credential (descriptor transports %s) answered %s"
+                                           % (op["req"]["allow_tr"], json.dumps(res)[:90])))
+    for sc, obs, why in fails[:3]:
+        run.violation({"kind": "client level: " + why, "scenario": sc, "observed": obs})
+    common.coq_build(list(ceremony.WCOQ_TARGETS))
+    flat = [x for x in ceremony.wcases_of(scs, outs) if x[4] is not None]
+    res = common.coq_eval(PROP + "-client", ceremony.WPREAMBLE, [t for *_, t in flat], ["wagree"], shard=60)
+    if not fails and res["wagree"]:
+        si, oi, op, obs, t = flat[res["wagree"][0]]
+        run.violation({"kind": "client model and implementation disagree; the client-level list oracle is true on all %d observations" % len(flat),
+                       "broken": "correspondence ceremony/%s (Auth.ClientCheck.wagree)" % op["op"], "scenario": scs[si], "observed": obs}, found_input=False)
+    run.cov["client_level"] = {"scenarios": len(scs), "operations": len(flat), "oracle_failures": len(fails), "model_disagreements": len(res["wagree"]),
+                               "rule": "Client::register (exclude list naming the held credential, alone and after an unknown id) and Client::authenticate (allow list) x "
+                                       "descriptor transports hint {absent, empty, usb, internal, hybrid+internal, nfc+ble, unknown} x authenticator transports x store kind"}
+
+
 def check(run):
     n = 350 if run.tier == "quick" else 6000
     scenarios = typed_lists(run) + [gen_history(run.rng, run.tier, faults=(i % 5 == 4)) for i in range(n)]
@@ -117,3 +167,4 @@ def check(run):
     # executor): the ceremony must wait - never answer as if nothing were stored, never skip a write
     import c19
     run.cov["held_lock"] = c19.check_held_locks(run, ("C05",))
+    client_lists(run)
